@@ -203,6 +203,12 @@ func (w *vfWorld) rawTarget(name string) *vfRawTarget {
 	}
 	rt := &vfRawTarget{name: name, w: w, probeOK: true}
 	rt.l = w.net.Listen(addr)
+	w.mu.Lock()
+	if w.raws == nil {
+		w.raws = map[string]*vfRawTarget{}
+	}
+	w.raws[name] = rt
+	w.mu.Unlock()
 	go func() {
 		for {
 			c, err := rt.l.Accept()
@@ -224,6 +230,12 @@ func (w *vfWorld) rawTarget(name string) *vfRawTarget {
 		}
 	}()
 	return rt
+}
+
+func (w *vfWorld) rawTargetByName(name string) *vfRawTarget {
+	w.mu.Lock()
+	defer w.mu.Unlock()
+	return w.raws[name]
 }
 
 func (rt *vfRawTarget) setScripts(scripts [][]vfRawStep, def []vfRawStep) {
